@@ -106,3 +106,67 @@ func ruleRECMODE(c *Ctx) {
 	}
 	_ = token.NoPos
 }
+
+// GUARD(nil-stack): during error recovery the js parser asks the token stream for tokens with a
+// nil stack (`stream.next(nil, -1)` in skipBrokenCode; recoveryMode is true then - see
+// TYPESTATE(recoveryMode)). TokenStream.next may therefore touch its stack parameter only after
+// the `if s.recoveryMode { … return }` block: every indexing or slicing of stack is governed by
+// the false edge of s.recoveryMode (or by endState != -1, which recovery passes along with the nil
+// stack). Otherwise `stack[len(stack)-1]` panics while skipping broken
+// code that contains a restricted production (return/break/continue/throw followed by a newline).
+func ruleNILSTACK(c *Ctx) {
+	const rule = "GUARD(nil-stack)"
+	f := c.SSAFunc("parsers/js", "(*TokenStream).next")
+	if f == nil {
+		c.Lost(rule, "parsers/js.TokenStream.next", "function not found")
+		return
+	}
+	var stack *ssa.Parameter
+	for _, p := range f.Params {
+		if p.Name() == "stack" {
+			stack = p
+		}
+	}
+	if stack == nil {
+		c.Lost(rule, "parsers/js.TokenStream.next:stack", "parameter stack not found")
+		return
+	}
+	n := 0
+	ord := map[string]int{}
+	for _, b := range f.Blocks {
+		for _, ins := range b.Instrs {
+			var base ssa.Value
+			switch x := ins.(type) {
+			case *ssa.IndexAddr:
+				base = x.X
+			case *ssa.Slice:
+				base = x.X
+			default:
+				continue
+			}
+			if base != ssa.Value(stack) {
+				continue
+			}
+			n++
+			key := ordKey(ord, "parsers/js.TokenStream.next:stack-use")
+			safe := false
+			for _, g := range flattenConds(governing(b)) {
+				if strings.HasSuffix(vpath(g.V), ".recoveryMode") && !g.Pol {
+					safe = true
+				}
+				// recovery also passes endState == -1 together with the nil stack
+				if l, op, r, ok := cmpNorm(g.V, g.Pol); ok && op == "!=" && ((l == "endState" && r == "-1") || (r == "endState" && l == "-1")) {
+					safe = true
+				}
+			}
+			if safe {
+				c.Ok(rule, key, ins.Pos(), "the parser stack is touched only when the stream is not in recovery mode")
+			} else {
+				c.Bad(rule, key, ins.Pos(), "TokenStream.next indexes its stack parameter on a path where s.recoveryMode may be true: recovery passes a nil stack, so this panics (index out of range [-1]) while broken code is skipped")
+			}
+		}
+	}
+	if n < 2 {
+		c.add(rule, "count:", token.NoPos, CountDropped, true, "only %d uses of the stack parameter found in TokenStream.next", n)
+	}
+}
